@@ -27,6 +27,11 @@ def cases(rng, tier):
     for _ in range(m):
         out.append(dict(kind="pair", seed=rng.randrange(10**9), nmsg=[rng.randrange(0, 5), rng.randrange(0, 5)],
                         pdrop=rng.choice([0.02, 0.05, 0.1, 0.2]), steps=rng.choice([100, 250, 500])))
+    # long sessions: many phases in the mailbox, then late drops (every re-open replays the whole
+    # mailbox history, however long it is)
+    for k in range(3 if tier == "quick" else 40):
+        out.append(dict(kind="pair", seed=rng.randrange(10**9), nmsg=[rng.choice([35, 48, 70]), rng.choice([2, 40])],
+                        pdrop=0.0, steps=rng.choice([1500, 2500]), late_drops=rng.choice([1, 2, 3])))
     return out
 
 
@@ -56,7 +61,7 @@ def run_pair(case):
                 if not started[ci]:
                     choices += [["api", ci, "set_code", code]] * 2
                 if len(sent[ci]) < case["nmsg"][ci]:
-                    body = bytes([ci, len(sent[ci])]) * (1 + len(sent[ci]))
+                    body = bytes([ci, len(sent[ci]) % 256]) * (1 + len(sent[ci]) % 7)
                     choices.append(["api", ci, "send", body.hex()])
             if not choices:
                 break
@@ -69,12 +74,28 @@ def run_pair(case):
                 started[op[1]] = True
             if op[0] == "api" and op[2] == "send":
                 sent[op[1]].append(op[3])
+        # late drops: after (almost) everything has been exchanged, bounce the connections again
+        for _ in range(case.get("late_drops", 0)):
+            W.settle()
+            for ci in (0, 1):
+                if cl[ci].conn is not None and rng.random() < 0.8:
+                    W.do(["drop", ci])
+                    ndrops += 1
+            for ci in (0, 1):
+                if cl[ci].conn is None and cl[ci].svc.started:
+                    W.do(["open", ci])
+            if all(len(sent[ci]) >= case["nmsg"][ci] for ci in (0, 1)) is False:
+                for ci in (0, 1):
+                    if started[ci] and len(sent[ci]) < case["nmsg"][ci]:
+                        body = bytes([ci, len(sent[ci]) % 256]) * (1 + len(sent[ci]) % 7)
+                        W.do(["api", ci, "send", body.hex()])
+                        sent[ci].append(body.hex())
         # eventually stable connectivity; remaining API calls still get made
         for ci in (0, 1):
             if not started[ci]:
                 W.do(["api", ci, "set_code", code])
             while len(sent[ci]) < case["nmsg"][ci]:
-                body = bytes([ci, len(sent[ci])]) * (1 + len(sent[ci]))
+                body = bytes([ci, len(sent[ci]) % 256]) * (1 + len(sent[ci]) % 7)
                 W.do(["api", ci, "send", body.hex()])
                 sent[ci].append(body.hex())
         for _ in range(4):
